@@ -366,7 +366,9 @@ def check_dump(spec, runner, path, o, reg, ann, k=None):
     out.append(rec("dump:lists-the-query-pixels", ok_n, case, f"{len(body)} rows: {body[:12]}", f"{len(mp_)} rows: {mp_[:12]}", nt, rsig, detail))
     if not ok_n:
         return out
-    known = [c for c in header if c in pot]
+    # printed columns the model knows, pixel identity first (so that a wrong value column cannot disturb the row matching below)
+    prio = ["bin1_id", "bin2_id", "chrom1", "start1", "end1", "chrom2", "start2", "end2"] + [f + x for f in ann for x in "12"] + ["count", "balanced"]
+    known = sorted((c for c in header if c in pot), key=prio.index)
     idx = [header.index(c) for c in known]
     exp_rows = [[model_value(c, px, rows, o, ann) for c in known] for px in mp_]
     got_rows = [[r[i] for i in idx] for r in body]
